@@ -613,6 +613,21 @@ fn main() {
         }
     }
 
+    // a credential kanidm itself generates for a cleartext of more than 512 bytes (e.g. 128 graphemes built
+    // from combining characters) can never be verified again: known class long-cleartext
+    {
+        let pol = CryptoPolicy::danger_test_minimum();
+        let pw: String = (0..100).map(|_| "e\u{301}\u{301}\u{301}").collect();
+        if let Ok(p) = Password::new_argon2id(&pol, &pw) {
+            if let DbPasswordV1::ARGON2ID { m, t, p: pp, v, s, k } = p.to_dbpasswordv1() {
+                let s: Vec<u8> = s.into();
+                let k: Vec<u8> = k.into();
+                let g = Gen::DbArgon { m, t, p: pp, v, salt: s, klen: k.len() };
+                outs.push(run_case(Some((&g, &pw)), &Stored::Db(p.to_dbpasswordv1()), &[pw.clone()], "long-right-kanidm-new-argon2id", false));
+            }
+        }
+    }
+
     // ---- (b) hand-made / mutated / malformed
     let hand = |outs: &mut Vec<Out>, s: String, atts: Vec<String>, kind: &str, slow: bool| {
         outs.push(run_case(None, &Stored::Str(s), &atts, kind, slow));
